@@ -200,6 +200,7 @@ def stepLine (d : DState) (line : String) : DState × String :=
     | none => (d, "bad-op")
   | "e" :: rest => (d, entryOp rest)
   | "f" :: _ => (d, "fz")      -- malformed byte stream: oracle only, no model
+  | "ms" :: _ => (d, "ok")     -- metric series stream: implementation-side state oracle only
   | "gc" :: _ => (d, "ok")     -- msg-id handler garbage collection: implementation-side state oracle only
   | "conc" :: _ => (d, "ok")   -- concurrent stage: the harness runs this driver itself as the sequential oracle
   | "k" :: kind :: rest => (d, kernel kind rest)
